@@ -73,6 +73,18 @@ OPTIMIZERS = {
     # QuantizedValue.to_float in Python on every call
     "sm3_eager": ("sm3", {"beta1": 0.9, "beta2": 0.999}, "rep", SHAPES,
                   {"jit": False}),
+    "tf_sketchy_eager": ("tf", {"second_order_type": "sketchy",
+                                "sketchy_rank": 2, "merge_dims": 2,
+                                "update_freq": 2}, "rep", SHAPES,
+                         {"jit": False, "tol": 1e-4}),
+    # tol: with NumPy leaves part of the arithmetic is evaluated by NumPy,
+    # which rounds a*x+b*y twice where XLA fuses it; the resumed run is
+    # required to agree to 1e-4 of each leaf's magnitude instead of bitwise
+    # (what this configuration is about is that the restored state can be
+    # stepped at all and is not modified in place)
+    # (tearfree Shampoo is not run this way: with NumPy leaves part of its
+    # moving average is evaluated by NumPy, which rounds a*x+b*y twice where
+    # XLA fuses it - one-ulp differences that are not the library's doing)
     "tf_shampoo": ("tf", {"block_size": 2, "merge_dims": 2,
                           "update_preconditioners_freq": 2}, "rep", SHAPES),
     "tf_sketchy": ("tf", {"second_order_type": "sketchy", "sketchy_rank": 2,
@@ -94,8 +106,8 @@ def plan(tier, seed):
     else:
       d = depth
     opts = OPTIMIZERS[name][4] if len(OPTIMIZERS[name]) > 4 else {}
-    if opts.get("jit") is False and OPTIMIZERS[name][0] == "ds":
-      d = min(d, 3)      # op-by-op distributed_shampoo: ~5 s per update
+    if opts.get("jit") is False and OPTIMIZERS[name][0] in ("ds", "tf"):
+      d = min(d, 3)      # op-by-op stepping: seconds per update
     tasks.append({"name": name, "opt": name, "depth": d,
                   # quick: fresh-process resume for three optimizers at crash
                   # points 0 and 1; thorough: all optimizers, points 0, 1, T
@@ -217,12 +229,46 @@ def run_task(task):
                     "state differs from the serialized one (structure equal: "
                     "%s)" % (t1 == t0), case)
       return
+    tol = (spec[4] if len(spec) > 4 else {}).get("tol")
+
+    def same(t1, t2):
+      if not tol:
+        return trees_equal_bitwise(t1, t2)
+      l1, d1 = jax.tree_util.tree_flatten(t1)
+      l2, d2 = jax.tree_util.tree_flatten(t2)
+      if d1 != d2:
+        return False
+      for a, b in zip(l1, l2):
+        a, b = np.asarray(a), np.asarray(b)
+        if a.shape != b.shape or a.dtype != b.dtype:
+          return False
+        if a.dtype.kind == "f":
+          sc = max(float(np.max(np.abs(a))) if a.size else 0.0, 1e-30)
+          if not np.all(np.abs(a.astype(np.float64) - b) <= tol * sc):
+            return False
+        elif not np.array_equal(a, b):
+          return False
+      return True
+
     for ev in ["gA", "gB"]:
       u1, s1 = m.step(s, alpha[ev])
-      u2, s2 = fresh.step(restored, alpha[ev])
+      try:
+        u2, s2 = fresh.step(restored, alpha[ev])
+      except Exception as e:  # pylint: disable=broad-except
+        acc.outcome("viol_resume_raises")
+        acc.violation(sigbase + "|%s|%s|resume_exc" % (",".join(hist), ev),
+                      "stepping the restored state raised %s: %s" %
+                      (type(e).__name__, str(e)[:200]), dict(case, event=ev))
+        return
       acc.transitions += 1
-      if not (trees_equal_bitwise(m.host(u1), m.host(u2)) and
-              trees_equal_bitwise(m.host(s1), m.host(s2))):
+      if not trees_equal_bitwise(m.host(restored), hs):
+        acc.outcome("viol_restored_state_modified")
+        acc.violation(sigbase + "|%s|%s|inplace" % (",".join(hist), ev),
+                      "the update modified the restored state it was given "
+                      "in place", dict(case, event=ev))
+        return
+      if not (same(m.host(u1), m.host(u2)) and
+              same(m.host(s1), m.host(s2))):
         acc.outcome("viol_resume_differs")
         acc.violation(sigbase + "|%s|%s|resume" % (",".join(hist), ev),
                       "continuing from the restored state after %d updates "
